@@ -151,6 +151,9 @@ def inline_pure(F, t, depth=1, only=None):
             return None
         return effects.rebuild(rs[0].ret, g)
     def fold(n):
+        # `x.clamp(lo, hi)` is `min(max(x, lo), hi)` (it panics for lo > hi, which is a clean failure)
+        if n and n[0] == 'call' and str(n[1]).endswith(('Ord::clamp', 'cmp::Ord::clamp')) and len(n[2]) == 3:
+            return ('call', 'core::cmp::Ord::min', (('call', 'core::cmp::Ord::max', (n[2][0], n[2][1]), None), n[2][2]), None)
         # field of a literal that an inlined helper returned: `helper(x).field`
         if n and n[0] == 'proj' and isinstance(n[1], tuple) and n[1] and n[1][0] == 'agg' and isinstance(n[2], tuple) and n[2] and n[2][0] == 'f':
             vals, names = n[1][2], (n[1][3] if len(n[1]) > 3 else None)
